@@ -54,8 +54,9 @@ class Slow(Exception):
     pass
 
 
-def run_ops(ctx, exe, ops, timeout=150):
+def run_ops(ctx, exe, ops, timeout=None):
     import subprocess
+    timeout = timeout or (45 if ctx.tier == "quick" else 150)      # per harness process; slower states are counted, not judged
     try:
         r = ctx.run_harness(exe, "\n".join(ops) + "\n", timeout=timeout)
     except subprocess.TimeoutExpired:
@@ -211,14 +212,47 @@ def eval_case_inner(ctx, exe, case, status_of, deep=True):
         insts.append("B17")
     sol = ents1.get(("SOLUTION_RAW", 1))
     if sol is not None:
+        from fractions import Fraction
+        tot = {p.split("/", 1)[1]: v for p, v in sol.items() if p.startswith("totals/")}
+        head = ["SOLUTION_MODIFY 1", f" -total_h {sol['total_h']}", f" -total_o {sol['total_o']}", f" -cb {sol['cb']}", " -totals"]
+        # M: the totals under the names the dump uses (valence states)
+        back = head + [f"  {el} {v}" for el, v in tot.items()]
+        # M1 / M2: "restoring only element totals, total H, total O and charge": valence states summed into their element, plain
+        # element names; H and O are carried by total_h / total_o
+        elts = {}
+        for el, v in tot.items():
+            e = el.split("(")[0]
+            if e not in ("H", "O"):
+                elts[e] = elts.get(e, Fraction(0)) + Fraction(v)
+        plain = head + [f"  {e} {float(x)!r}" for e, x in sorted(elts.items())]
+        res["valence_states"] = max([sum(1 for el in tot if el.split("(")[0] == e and "(" in el) for e in elts] or [0])
+        # M2 first gets another composition and valence distribution (totals scaled, spread over the valence states differently,
+        # H and charge shifted), then the same restoring MODIFY
+        pert = ["SOLUTION_MODIFY 1", f" -total_h {float(sol['total_h']) * 1.0005!r}", f" -cb {float(sol['cb']) + 2e-4!r}", " -totals"]
+        names = sorted(tot)
+        for i, el in enumerate(names):
+            if el.split("(")[0] in ("H", "O"):
+                continue
+            other = names[(i + 1) % len(names)]
+            src = other if other.split("(")[0] == el.split("(")[0] else el
+            pert.append(f"  {el} {float(tot[src]) * (1.7 if i % 2 else 0.6) + 1e-6!r}")
         fresh("M", ops)
         ops.append(f"run M {hx(d1)}")
-        tot = {p.split("/", 1)[1]: v for p, v in sol.items() if p.startswith("totals/")}
-        back = ["SOLUTION_MODIFY 1", f" -total_h {sol['total_h']}", f" -total_o {sol['total_o']}", f" -cb {sol['cb']}", " -totals"]
-        back += [f"  {el} {v}" for el, v in tot.items()]
         idx["mod"] = len(ops)
         ops.append(f"run M {hx(chr(10).join(back) + chr(10) + 'END' + chr(10))}")
         first_only.append("M")
+        if deep:
+            fresh("M1", ops)
+            ops.append(f"run M1 {hx(d1)}")
+            idx["mod1"] = len(ops)
+            ops.append(f"run M1 {hx(chr(10).join(plain) + chr(10) + 'END' + chr(10))}")
+            fresh("M2", ops)
+            ops.append(f"run M2 {hx(d1)}")
+            idx["mod2p"] = len(ops)
+            ops.append(f"run M2 {hx(chr(10).join(pert) + chr(10) + 'END' + chr(10))}")
+            idx["mod2"] = len(ops)
+            ops.append(f"run M2 {hx(chr(10).join(plain) + chr(10) + 'END' + chr(10))}")
+            first_only += ["M1", "M2"]
     pos = {}
     for n_fu, (name, text) in enumerate(fu):
         for t in insts + (first_only if n_fu == 0 else []):
@@ -281,11 +315,14 @@ def eval_case_inner(ctx, exe, case, status_of, deep=True):
     for (name, t), p in pos.items():
         r = parse_run(out[p])
         T[(name, t)] = (r, parse_sel(out[p + 1]) if r[0] == 0 else None)
-    if "mod" in idx and parse_run(out[idx["mod"]])[0] != 0:
-        res["problems"].append(("modify", f"SOLUTION_MODIFY restoring totals/H/O/cb fails: {parse_run(out[idx['mod']])[1][:300]}"))
-        T.pop((name0, "M"), None)
-    elif "mod" in idx:
-        res["modify"] = True
+    for key, t in (("mod", "M"), ("mod1", "M1"), ("mod2", "M2")):
+        if key in idx and parse_run(out[idx[key]])[0] != 0:
+            res["problems"].append(("modify", f"SOLUTION_MODIFY restoring totals/H/O/cb fails on {t}: {parse_run(out[idx[key]])[1][:300]}"))
+            T.pop((name0, t), None)
+        elif key in idx:
+            res["modify"] = res.get("modify", 0) + 1
+    if "mod2p" in idx and parse_run(out[idx["mod2p"]])[0] != 0:
+        T.pop((name0, "M2"), None)        # the perturbation itself was not accepted: variant not applicable
     if deep and parse_run(out[idx["read17"]])[0] != 0:
         res["problems"].append(("read-error", f"errors reading the 17-digit dump: {parse_run(out[idx['read17']])[1][:300]}"))
     # Every instance other than A runs in an equally fresh engine. The links that are judged (all at 1e-7):
@@ -300,7 +337,7 @@ def eval_case_inner(ctx, exe, case, status_of, deep=True):
         if ra[0] != 0:
             res["notes"].append(f"follow-up {name} fails on the original state (not judged)")
             continue
-        tab = {t: T[(name, t)] for t in ("B", "B17", "D", "E", "M") if (name, t) in T}
+        tab = {t: T[(name, t)] for t in ("B", "B17", "D", "E", "M", "M1", "M2") if (name, t) in T}
         d_fails = "D" in tab and tab["D"][0][0] != 0
         for t, (rt, _) in tab.items():
             res["followups"] += 1
@@ -311,7 +348,7 @@ def eval_case_inner(ctx, exe, case, status_of, deep=True):
                     res["sig"].append(("original-engine-warm-start", f"follow-up {name} runs on the original but not on an exact object "
                                        f"copy in a fresh engine: {' '.join(rt[1].split())[:160]}"))
             elif rt[0] != 0:
-                res["problems"].append(({"B": "followup", "B17": "followup", "D": "bincopy", "E": "sercopy", "M": "modify"}[t],
+                res["problems"].append(({"B": "followup", "B17": "followup", "D": "bincopy", "E": "sercopy"}.get(t, "modify"),
                                         f"follow-up {name} runs on the original state but fails on {t}: {rt[1][:300]}"))
         okay = {t: v[1] for t, v in tab.items() if v[0][0] == 0}
         links = []
@@ -337,10 +374,12 @@ def eval_case_inner(ctx, exe, case, status_of, deep=True):
             d = cells_differ(okay["D"], okay["E"])
             if d:
                 res["problems"].append(("sercopy", f"follow-up {name}: Serializer copy vs object copy: {d}"))
-        if "M" in okay and "B" in okay:
-            d = cells_differ(okay["B"], okay["M"])
-            if d:
-                res["problems"].append(("modify", f"follow-up {name}: restored + SOLUTION_MODIFY of its own totals/H/O/cb vs restored: {d}"))
+        for t, how in (("M", "of its own totals (valence-state names)/H/O/cb"), ("M1", "of its element-summed totals (plain element names)/H/O/cb"),
+                       ("M2", "of the element-summed totals/H/O/cb onto a solution of another composition and valence distribution")):
+            if t in okay and "B" in okay:
+                d = cells_differ(okay["B"], okay[t])
+                if d:
+                    res["problems"].append(("modify", f"follow-up {name}: restored + SOLUTION_MODIFY {how} vs restored: {d}"))
         if "B" in okay:
             d = cells_differ(selA, okay["B"])
             if d and not links and deep:
@@ -470,6 +509,37 @@ def find_option_correspondence(ctx, exe, tables, n_random):
     return len(qs), bad
 
 
+def merge_correspondence(ctx, exe, n):
+    """the real cxxNameDouble::merge_redox vs Model `mergeRedox` on random maps of element / valence-state names"""
+    rng = ctx.rng
+    elems = ["Fe", "F", "N", "Na", "S", "Si", "C", "Ca", "Cl", "H", "O", "Mn", "X", "Hfo_w", "Am"]
+
+    def name():
+        e = rng.choice(elems)
+        r = rng.random()
+        if r < 0.5:
+            return e
+        if r < 0.9:
+            return f"{e}({rng.choice(['2', '3', '-3', '5', '0', '6', '-2', '4', '-4'])})"
+        return rng.choice([e + "(", e + "(2)(3)", "(" + e, e + "2(x)", e.lower() + "(2)"])
+
+    def nd(k):
+        d = {}
+        for _ in range(k):
+            d[name()] = rng.randint(1, 99)
+        return ",".join(f"{hx(a)}:{b}" for a, b in sorted(d.items())) or "-"
+    qs = [f"merge {nd(rng.randint(0, 7))} {nd(rng.randint(0, 4))}" for _ in range(n)]
+    r = ctx.run_harness(exe, "\n".join(qs) + "\n")
+    impl = r.stdout.splitlines()
+    model = ctx.pmodel("raw", "\n".join(qs) + "\n")
+    bad = [(q, a, b) for q, a, b in zip(qs, impl, model) if a != b]
+    if len(impl) != len(qs):
+        bad.append(("harness answered", len(impl), len(qs)))
+    multi = sum(1 for q in qs if len({unhx(i.split(":")[0]).split("(")[0] for i in q.split()[1].split(",") if i != "-" and "28" in i.split(":")[0]})
+                < sum(1 for i in q.split()[1].split(",") if i != "-" and "28" in i.split(":")[0]))
+    return len(qs), multi, bad
+
+
 # ---------------------------------------------------------------------------------------------- known departures
 # Each key is a departure of the real code from C10 whose cause has been traced (see the rule that attributes a difference to it
 # in eval_case); each has a hand-minimised case that is evaluated on every run, so the finding is re-confirmed, not assumed.
@@ -542,6 +612,13 @@ def run(ctx):
         if bad:
             ctx.violation(f"CParser::find_option / vopts of the built library disagree with the model: {bad[:3]}",
                           {"queries": [list(map(str, b)) for b in bad[:10]]}, found_input=True)
+        nm, multi, bad = merge_correspondence(ctx, exe, ctx.n(600, 20000))
+        evals += nm
+        ctx.cov["merge_redox_queries"] = {"total": nm, "with_several_valence_states_of_one_element": multi}
+        if bad:
+            q, a, b = bad[0]
+            ctx.violation(f"cxxNameDouble::merge_redox of the built library disagrees with the model: {q} → real {a}, model {b}",
+                          {"queries": [list(map(str, x)) for x in bad[:10]]}, found_input=True)
     t_start = time.time()
     # ---- corpus: minimised past failures (repaired defects) are replayed first and must pass completely
     corpus = sorted(CORPUS.glob("*.json")) if CORPUS.exists() else []
@@ -578,7 +655,8 @@ def run(ctx):
         stats["d1_ne_d2"] += r["d1_ne_d2"]
         stats["followups"] += r["followups"]
         stats["copies"] += r["copies"]
-        stats["modify"] += bool(r.get("modify"))
+        stats["modify"] += int(r.get("modify") or 0)
+        stats["multi_valence_states"] = stats.get("multi_valence_states", 0) + (r.get("valence_states", 0) >= 2)
         if len(ctx.cov["samples"]) < 2 and not r["problems"] and not r["sig"]:
             ctx.sample({"db": c["db"], "setup": c["setup"][:600], "entities": r["entities"]})
         for key, text in r["sig"]:
